@@ -137,7 +137,9 @@ def render_hlog_header(rng, fields):
     if not start.rstrip().endswith('{'):
         lines.append('{')
     for k, f in enumerate(fields):
-        sp = rng.choice([' ', '  ', ''])
+        # white space as C and the decoder's pattern see it: blanks, tabs, and the rarer kinds (form feed, vertical
+        # tab, separators) that some text functions take for line ends - a line of the file ends at \n only
+        sp = rng.choice([' ', '  ', '', ' ', '\t', '\x0c', '\x0b ', ' \x1c', '\x1d\x1e', '\x85', '\u2028 '])
         comma = '' if k == len(fields) - 1 and rng.random() < .5 else ','
         if rng.random() < .12:
             # entries with a width the decoder does not know (only 1 and 2 are fields) - one, or several in a row -
@@ -193,3 +195,17 @@ def lines_via_process(sub, ver, data, variant):
         return sec[key]
     except (ValueError, KeyError, TypeError) as e:
         return ['no document from the process (%s): %s %s' % (variant, repr(e)[:80], (res['err'] or '')[-200:])]
+
+
+def view(data, k):
+    """the bytes as a caller may hand them over: a view of exactly these bytes, of a bytearray, or a WINDOW into a larger
+    buffer whose other bytes (a trace buffer header among them) are none of the decoder's business"""
+    raw = bytes(data)
+    k = k % 4
+    if k == 0:
+        return memoryview(raw)
+    if k == 1:
+        return memoryview(bytearray(raw))
+    before = b'\x02\x20\x01\x42FANS' + bytes(range(1, 20))
+    after = b'\x02\x20\x01\x42POWR\x00\x00' + b'\xff' * 9 if k == 3 else b''
+    return memoryview(before + raw + after)[len(before):len(before) + len(raw)]
